@@ -28,8 +28,26 @@
 #include <stdio.h>
 #include <stdbool.h>
 #include <zck.h>
+#ifndef _WIN32
+#include <fcntl.h>
+#include <unistd.h>
+#endif
 
 #include "util_common.h"
+
+/* Messages go to descriptors 1 and 2 by number.  If the caller started us
+ * without them, a file we open would get such a number and the messages
+ * would end up inside it, so put /dev/null there first */
+void ensure_std_fds() {
+#ifndef _WIN32
+    int fd;
+    do {
+        fd = open("/dev/null", O_RDWR);
+    } while(fd >= 0 && fd <= 2);
+    if(fd > 2)
+        close(fd);
+#endif
+}
 
 void version() {
     printf(ZCK_NAME " " ZCK_VERSION "\nCopyright (c) " ZCK_COPYRIGHT_YEAR
